@@ -11,6 +11,7 @@
 #include "taskq.h"
 #include "defs.h"
 #include "thread.h"
+#include "verif.h"
 
 typedef struct nni_taskq_thr nni_taskq_thr;
 struct nni_taskq_thr {
@@ -46,9 +47,11 @@ nni_taskq_thread(void *self)
 
 			nni_mtx_unlock(&tq->tq_mtx);
 
+			NNI_VERIF_TRACE("task", task, "cb_in", NULL);
 			task->task_cb(task->task_arg);
 
 			nni_mtx_lock(&task->task_mtx);
+			NNI_VERIF_TRACE("task", task, "cb_out", NULL);
 			task->task_busy--;
 			if (task->task_busy == 0) {
 				nni_cv_wake(&task->task_cv);
@@ -154,8 +157,10 @@ nni_task_exec(nni_task *task)
 
 	if (task->task_cb != NULL) {
 		nni_mtx_unlock(&task->task_mtx);
+		NNI_VERIF_TRACE("task", task, "cb_in", "\"sync\":1");
 		task->task_cb(task->task_arg);
 		nni_mtx_lock(&task->task_mtx);
+		NNI_VERIF_TRACE("task", task, "cb_out", "\"sync\":1");
 	}
 
 	task->task_busy--;
@@ -183,6 +188,12 @@ nni_task_dispatch(nni_task *task)
 		task->task_busy++;
 	}
 	nni_mtx_unlock(&task->task_mtx);
+
+#ifdef NNG_VERIF
+	if ((nni_verif.task_gate != NULL) && (nni_verif.task_gate(task))) {
+		return;
+	}
+#endif
 
 	nni_mtx_lock(&tq->tq_mtx);
 	nni_list_append(&tq->tq_tasks, task);
